@@ -29,7 +29,9 @@ import (
 )
 
 func vkC03Alphabet() []vkQ {
-	names := []string{"a.t.", "A.t.", "b.t.", `a\.t.`, `\000.t.`, "x.a.t."}
+	names := []string{"a.t.", "A.t.", "b.t.", `a\.t.`, `\000.t.`, "x.a.t.",
+		// octets that differ from each other only in bit 0x20 without being letters: no case folding may join them
+		"a[.t.", "a{.t.", "a^.t.", "a~.t."}
 	var out []vkQ
 	for _, n := range names {
 		for _, ty := range []uint16{dns.TypeA, dns.TypeAAAA} {
